@@ -93,7 +93,7 @@ theorem absR_eq (q : Rat) : absR q = |q| := by
   · rw [abs_of_nonneg (not_lt.mp h)]
 
 theorem mem_tiedIdx (tol m : Rat) (diff : List Rat) (i : Nat) :
-    i ∈ tiedIdx tol m diff ↔ ∃ h : i < diff.length, |diff[i] - m| < tol := by
+    i ∈ tiedIdx tol m diff ↔ ∃ h : i < diff.length, |diff[i] - m| ≤ tol * |m| := by
   unfold tiedIdx
   simp only [List.mem_map, List.mem_filter, decide_eq_true_eq, absR_eq]
   constructor
@@ -107,11 +107,14 @@ theorem mem_tiedIdx (tol m : Rat) (diff : List Rat) (i : Nat) :
     rw [List.mem_zipIdx_iff_getElem?]
     simp
 
-/-- what `pick` returns: two entries of `s`, `lag` apart, whose distance is within `tol` of every other such distance -/
+/-- what `pick` returns: two entries of `s`, `lag` apart, whose distance is within the relative tolerance of the
+    smallest such distance `m` -/
 theorem pick_spec (tol : Rat) (cdiv : Nat) (s : List Rat) (lag : Nat) (lo hi : Rat)
     (h : pick tol cdiv s lag = .ok (lo, hi)) :
     ∃ i, ∃ hi' : i + lag < s.length, lo = s[i]'(by omega) ∧ hi = s[i + lag] ∧
-      ∀ j (hj : j + lag < s.length), s[i + lag] - s[i]'(by omega) < s[j + lag] - s[j]'(by omega) + tol := by
+      ∃ m : Rat, (∃ k, ∃ hk : k + lag < s.length, m = s[k + lag] - s[k]'(by omega)) ∧
+        (∀ j (hj : j + lag < s.length), m ≤ s[j + lag] - s[j]'(by omega)) ∧
+        s[i + lag] - s[i]'(by omega) ≤ m + tol * |m| := by
   unfold pick at h
   cases hd : diffLag s lag with
   | nil => rw [hd] at h; cases h
@@ -132,18 +135,24 @@ theorem pick_spec (tol : Rat) (cdiv : Nat) (s : List Rat) (lag : Nat) (lo hi : R
       have e2 : s[i + lag]? = some s[i + lag] := List.getElem?_eq_getElem hil
       rw [e1, e2] at h
       simp only [Except.ok.injEq, Prod.mk.injEq] at h
-      refine ⟨i, hil, h.1.symm, h.2.symm, ?_⟩
-      intro j hj
-      have hjd : (diffLag s lag)[j]'(by rw [diffLag_length]; omega) ∈ d0 :: ds := by
-        rw [← hd]; exact List.getElem_mem _
-      have hm := minList_le d0 ds _ hjd
-      rw [diffLag_getElem s lag j hj] at hm
-      rw [diffLag_getElem s lag i hil] at hclose
-      have := abs_lt.mp hclose
-      linarith [this.2]
+      refine ⟨i, hil, h.1.symm, h.2.symm, minList d0 ds, ?_, ?_, ?_⟩
+      · have hmem := minList_mem d0 ds
+        rw [← hd] at hmem
+        obtain ⟨k, hk', hkm⟩ := List.getElem_of_mem hmem
+        have hk2 : k + lag < s.length := by rw [diffLag_length] at hk'; omega
+        exact ⟨k, hk2, by rw [← hkm, diffLag_getElem s lag k hk2]⟩
+      · intro j hj
+        have hjd : (diffLag s lag)[j]'(by rw [diffLag_length]; omega) ∈ d0 :: ds := by
+          rw [← hd]; exact List.getElem_mem _
+        have hm := minList_le d0 ds _ hjd
+        rw [diffLag_getElem s lag j hj] at hm
+        exact hm
+      · rw [diffLag_getElem s lag i hil] at hclose
+        have := abs_le.mp hclose
+        linarith [this.2]
 
-/-- `pick` succeeds whenever there is at least one lag pair, the tolerance is positive and the index divisor ≥ 2 -/
-theorem pick_ok (tol : Rat) (cdiv : Nat) (s : List Rat) (lag : Nat) (htol : 0 < tol) (hc : 2 ≤ cdiv) (hl : lag < s.length) :
+/-- `pick` succeeds whenever there is at least one lag pair, the tolerance is non-negative and the index divisor ≥ 2 -/
+theorem pick_ok (tol : Rat) (cdiv : Nat) (s : List Rat) (lag : Nat) (htol : 0 ≤ tol) (hc : 2 ≤ cdiv) (hl : lag < s.length) :
     ∃ r, pick tol cdiv s lag = .ok r := by
   unfold pick
   cases hd : diffLag s lag with
@@ -157,7 +166,7 @@ theorem pick_ok (tol : Rat) (cdiv : Nat) (s : List Rat) (lag : Nat) (htol : 0 < 
     obtain ⟨k, hk, hkm⟩ := List.getElem_of_mem hmem
     have hkin : k ∈ tiedIdx tol (minList d0 ds) (d0 :: ds) := by
       rw [mem_tiedIdx]
-      exact ⟨hk, by rw [hkm]; simpa using htol⟩
+      exact ⟨hk, by rw [hkm]; simpa using mul_nonneg htol (abs_nonneg _)⟩
     have hpos : 0 < (tiedIdx tol (minList d0 ds) (d0 :: ds)).length := List.length_pos_of_mem hkin
     have hlt : (tiedIdx tol (minList d0 ds) (d0 :: ds)).length / cdiv < (tiedIdx tol (minList d0 ds) (d0 :: ds)).length :=
       Nat.div_lt_self hpos (by omega)
